@@ -44,14 +44,15 @@ def _init_worker():
 
 
 def _one(job):
-    seed, engine, idx, keep_sample = job
+    seed, engine, idx, keep_sample = job[:4]
+    deep = bool(job[4]) if len(job) > 4 else False
     rs = mix(seed, ENGINE_OFFSET[engine] + idx)
-    src = GenSource(rs, engine, runner.BOOT['steps'], runner.BOOT['funcs'], runner.BOOT['calls'])
+    src = GenSource(rs, engine, runner.BOOT['steps'], runner.BOOT['funcs'], runner.BOOT['calls'], deep)
     try:
         r = runner.run_plan(src)
     except runner.HarnessError as e:
         return {'idx': idx, 'engine': engine, 'harness_error': str(e)[-1500:]}
-    out = {'idx': idx, 'engine': engine, 'run_seed': rs, 'digest': r['digest'], 'nontrivial': r['nontrivial'],
+    out = {'idx': idx, 'engine': engine, 'deep': deep, 'run_seed': rs, 'digest': r['digest'], 'nontrivial': r['nontrivial'],
            'counters': r['counters'], 'violations': r['violations'], 'steps': r['steps'],
            'sim_seconds': r['sim_seconds'], 'wall': r['wall'], 'sched_keys': r['sched_keys'],
            'point_lines': r['point_lines'],
@@ -62,11 +63,11 @@ def _one(job):
     return out
 
 
-def run_batch(seed, counts, workers=16, progress=True):
+def run_batch(seed, counts, workers=16, progress=True, deep_every=0):
     jobs = []
     for eng in ('H', 'N', 'T'):
         n = counts.get(eng, 0)
-        jobs += [(seed, eng, i, i < 1) for i in range(n)]
+        jobs += [(seed, eng, i, i < 1, bool(deep_every and i % deep_every == deep_every - 1)) for i in range(n)]
     # interleave engines so that a partial batch is still mixed
     jobs.sort(key=lambda j: (j[2], j[1]))
     res = []
@@ -127,7 +128,7 @@ def report_violations(results, seed, tier, do_minimise=True, max_keys=8, max_rep
         if calls[name] >= 20 and rejs[name] == calls[name] and not name.endswith('#bad'):
             r, sv = first[name]
             if 'plan' not in r:
-                r = _one((seed, r['engine'], r['idx'], 'plan'))
+                r = _one((seed, r['engine'], r['idx'], 'plan', r.get('deep')))
             sv = dict(sv)
             sv['detail'] = dict(sv['detail'], calls_in_batch=calls[name], rejected=rejs[name])
             groups[('O5.never', name)] = (r, sv, rejs[name])
@@ -332,14 +333,14 @@ def cmd_batch(tier, argv):
     sys.stdout.flush()
     t0 = _perf()
     runner.boot()
-    results = run_batch(seed, counts)
+    results = run_batch(seed, counts, deep_every=(4 if tier == 'thorough' else 0))
     herr = [r for r in results if 'harness_error' in r]
     n_new, n_known, trouble = report_violations(results, seed, tier)
     extra = {}
     # replay-determinism spot check on every batch: the first runs of each engine are executed
     # again (other worker processes, other position in the batch); their event logs must be identical
     first = dict(((r['engine'], r['idx']), r.get('digest')) for r in results if r['idx'] < 6)
-    again = _digests(seed, list(range(6)), [e for e in 'HNT' if counts.get(e)], 8)
+    again = _digests(seed, list(range(6)), [e for e in 'HNT' if counts.get(e)], 8, 4 if tier == 'thorough' else 0)
     bad = [k for k, d in again.items() if first.get(k) is not None and first[k] != d]
     extra['determinism_spot_check'] = {'runs_reexecuted': len(again), 'mismatches': len(bad)}
     if bad:
@@ -392,8 +393,8 @@ def cmd_replay(argv):
     return 0
 
 
-def _digests(seed, idxs, engines, workers):
-    jobs = [(seed, e, i, False) for e in engines for i in idxs]
+def _digests(seed, idxs, engines, workers, deep_every=0):
+    jobs = [(seed, e, i, False, bool(deep_every and i % deep_every == deep_every - 1)) for e in engines for i in idxs]
     out = {}
     with ProcessPoolExecutor(workers, mp_context=mp.get_context('fork'), initializer=_init_worker) as ex:
         for j, r in zip(jobs, ex.map(_one, jobs, chunksize=2)):
@@ -405,8 +406,8 @@ def determinism_sample(seed, n):
     """Same seeds twice at worker counts 16 and 3, and once in a fresh interpreter
     under another PYTHONHASHSEED; event-log digests must agree."""
     idxs = list(range(5000, 5000 + n))
-    a = _digests(seed, idxs, 'HNT', 16)
-    b = _digests(seed, idxs, 'HNT', 3)
+    a = _digests(seed, idxs, 'HNT', 16, 4)
+    b = _digests(seed, idxs, 'HNT', 3, 4)
     env = dict(os.environ, PYTHONHASHSEED='12345', VERIF_NO_REEXEC='1', VERIF_SEED=str(seed))
     p = subprocess.run([sys.executable, os.path.join(HERE, 'check'), '_digests', str(n)], capture_output=True,
                        text=True, env=env, timeout=3600)
@@ -417,7 +418,8 @@ def determinism_sample(seed, n):
             c[(e, int(i))] = d
     bad = [k for k in a if a[k] != b.get(k) or a[k] != c.get(k)]
     info = {'seeds': n, 'engines': 'H,N,T', 'executions_compared': 3 * len(a), 'mismatches': len(bad),
-            'variants': ['16 workers', '3 workers', 'fresh interpreter PYTHONHASHSEED=12345']}
+            'variants': ['16 workers', '3 workers', 'fresh interpreter PYTHONHASHSEED=12345'],
+            'every_fourth_run_uses_the_deep_configuration': True}
     if bad:
         print('HARNESS-ERROR: determinism self-test failed for %s' % bad[:5])
     return not bad, info
@@ -436,7 +438,7 @@ def cmd_digests(argv):
     n = int(argv[0])
     seed = int(os.environ.get('VERIF_SEED', '1'))
     runner.boot()
-    d = _digests(seed, list(range(5000, 5000 + n)), 'HNT', 8)
+    d = _digests(seed, list(range(5000, 5000 + n)), 'HNT', 8, 4)
     for (e, i), v in sorted(d.items()):
         print('D %s %d %s' % (e, i, v))
     return 0
